@@ -91,4 +91,5 @@ fn main() {
 
     // Other cfgs (rustc-check-cfg)
     println!("cargo:rustc-check-cfg=cfg(ffuzzy_tests_without_debug_assertions)");
+    println!("cargo:rustc-check-cfg=cfg(a4lg_ffuzzy_verif)");
 }
